@@ -30,7 +30,8 @@ type OutSpec struct {
 	Path string    `json:"path"` // relative to the package directory
 	Tree []TreeEnt `json:"tree,omitempty"`
 	// Stash: the tree this output had while it was a directory (generator bookkeeping only)
-	Stash []TreeEnt `json:"stash,omitempty"`
+	Stash  []TreeEnt `json:"stash,omitempty"`
+	WasDir bool      `json:"was_dir,omitempty"`
 }
 
 func (o OutSpec) Decl() string {
